@@ -212,6 +212,11 @@ def main():
         elif a.startswith('--out='):
             out = a[6:]
     os.makedirs(os.path.dirname(out), exist_ok=True)
+    # work from a snapshot of the committed tree, so that experiments that patch /repo meanwhile cannot leak in
+    global REPO
+    base = tempfile.mkdtemp(prefix='cuv-mutbase-')
+    subprocess.run('git -C %s archive HEAD | tar -x -C %s' % (REPO, base), shell=True, check=True)
+    REPO = base
     ms = []
     for rel in (files or sorted(RELEVANT)):
         ms.extend(mutants_of(rel))
